@@ -534,5 +534,5 @@ func permute(xs []int, f func([]int)) {
 }
 
 func TestSchedules(t *testing.T) {
-	kit.Check(t, kit.Spec[SchedCase]{Sub: "sched", Quick: 200, Thorough: 8000, Gen: genSched, Exec: execSched, TrackCase: true})
+	kit.Check(t, kit.Spec[SchedCase]{Sub: "sched", Quick: 200, Thorough: 2500, Gen: genSched, Exec: execSched, TrackCase: true})
 }
